@@ -174,12 +174,17 @@ PROPS = {
                                     "CombinedCategoricalDissimilarity.d",
                                     "PrecomputedCategoricalDissimilarity.compile_d_mat", "AbstractDissimilarity.__init__#precomputed",
                                     "CategoricalDissimilarity.__init__#precomputed", "PrecomputedCategoricalDissimilarity.__init__",
-                                    "PrecomputedCategoricalDissimilarity.d", "LambdaCategoricalDissimilarity.__init__")],
+                                    "PrecomputedCategoricalDissimilarity.d", "LambdaCategoricalDissimilarity.__init__",
+                                    # ordinal / numerical: the entry of two NAMES is the distance of their positions over the largest distance,
+                                    # whatever the order supplied (np.argsort enumeration == SortedSet enumeration: induction lemma)
+                                    "OrdinalCategoricalDissimilarity.__init__#default", "OrdinalCategoricalDissimilarity.__init__#given",
+                                    "NumericalCategoricalDissimilarity.__init__")],
         oracles=[DS + "CombinedCategoricalDissimilarity.__init__"],
         bounded=[dict(oracle=DS + "CombinedCategoricalDissimilarity.__init__",
-                      what="the matrix-building constructors of the ordinal / numerical families (numpy argsort / unique loops), Levenshtein's distance "
-                           "function itself (assumed: a function of the two names) and check_if_dissim (assumed to change nothing) are not under "
-                           "contract; the lambda-family constructor (Levenshtein's) is proved: its matrix is built from the sorted SET of the labels; that d() and d_mat(encoded units) coincide is the "
+                      what="Levenshtein's distance function itself (assumed: a function of the two names) and check_if_dissim (assumed to change "
+                           "nothing) are not under contract; the matrix-building constructors are proved (lambda family: matrix built from the "
+                           "sorted SET of the labels; ordinal / numerical: np.argsort / np.unique / np.arange and the parse of number literals "
+                           "are assumed library models, a list p of positions is covered as a float32 array only); that d() and d_mat(encoded units) coincide is the "
                            "corollary 'both equal the same formula' given an injective category index: every class, delta_empty in "
                            "{0.5,1,2,3}, shuffled label order, 1..300 categories, components built with another delta_empty: d_mat(encoded) == "
                            "d(units) == documented formula, symmetric, >= 0, 0 on identical units")],
@@ -188,8 +193,9 @@ PROPS = {
                      "class invariant kappa == delta_empty: proved for PositionalSporadic, AbsoluteCategorical and the default Combined "
                      "constructor, with default components and with supplied positional / absolute components built with any other delta_empty "
                      "(the one delta_empty reaches both components and their kernels), PrecomputedCategorical (kernel reads the object's matrix), "
-                     "LambdaCategorical / Levenshtein (matrix from the sorted set of labels: independent of their order); the matrices built by "
-                     "the ordinal / numerical constructors (np.argsort): bounded"],
+                     "LambdaCategorical / Levenshtein (matrix from the sorted set of labels: independent of their order), Ordinal / Numerical "
+                     "(entry of two names == distance of their positions / largest distance, for every supplied order; positions given as a "
+                     "Python list instead of an array: bounded)"],
         trusted=S_COMMON + ["model: pyannote Segment.duration", "closure semantics: captured names are declared and checked against the "
                             "free variables of the closure body; a nested def yields a pure function value satisfying its own (separately "
                             "proved) contract with the captured names bound to their values at the definition (not re-assigned afterwards: checked)",
